@@ -23,6 +23,8 @@ type FakeMongo struct {
 	// AfterFind, when set, runs (under the lock) after a find has copied the matching document into its answer: a store
 	// that changes between two reads (an operator editing a tariff while requests are served)
 	AfterFind func(ns string, doc bson.M)
+	// FailUpdate, when set and returning true, makes an update command fail (a transient write error of the store)
+	FailUpdate func(ns string) bool
 }
 
 func StartFakeMongo() (*FakeMongo, string, error) {
@@ -233,6 +235,10 @@ func (f *FakeMongo) handle(db string, cmd bson.D, seqs map[string][]bsoncore.Doc
 	case "update":
 		coll, _ := cmd[0].Value.(string)
 		ns := db + "." + coll
+		if hook := f.FailUpdate; hook != nil && hook(ns) {
+			return bson.D{{Key: "ok", Value: 0.0}, {Key: "errmsg", Value: "injected write failure"}, {Key: "code", Value: int32(11600)},
+				{Key: "codeName", Value: "InterruptedAtShutdown"}}
+		}
 		n := 0
 		var ups []bson.M
 		for _, raw := range seqs["updates"] {
